@@ -455,6 +455,9 @@ def r05_7(ctx: Ctx):
                 obs.append(ctx.ob("R05.7", f, n, status=INCONCLUSIVE, detail="stop condition called through a non-attribute expression"))
                 continue
             recv = norm(n.func.value)
+            # the condition may be read off the owner's configuration (`self._config.lsc(self)`, `tree.config.gsc(tree)`)
+            if isinstance(n.func.value, ast.Attribute) and n.func.value.attr in ("_config", "config") and n.func.attr in ("lsc", "gsc"):
+                recv = norm(n.func.value.value)
             args = [norm(a) for a in n.args]
             ok = len(args) == 1 and args[0] == recv and not n.keywords
             if ok:
